@@ -228,3 +228,92 @@ def forms_of_ast(nodes):
     for n in nodes:
         walk(n, None)
     return out
+
+
+# ----------------------------------------------------------------------------------------------- dictionary model (C11)
+from . import profile_literal as _L
+
+LIST_PATHS = {
+    "process-inject.transform-x86",
+    "process-inject.execute",
+    "http-post.server.output",
+    "http-post.client.id",
+    "http-post.client.output",
+    "http-stager.server.output",
+    "http-get.client.metadata",
+    "http-get.server.output",
+}
+
+
+def _inner(lit):
+    return lit[1:-1]
+
+
+def model_dict(nodes):
+    """Expected dictionary view of an AST.
+
+    Returns (model, loose) - ``model`` maps key -> list of values for everything whose shape is documented:
+    options / keyword+string statements (literal text), header/parameter/strrep pairs (tuple of texts), statements of
+    the documented list blocks ((keyword, bytes...) or bare keyword) and bare-keyword lists such as stage.beacon_gate.
+    ``loose`` collects the paths of data-transform blocks outside the documented list paths together with their number
+    of statements; their exact shape is not fixed by the documentation and they are checked metamorphically only.
+    """
+    model = {}
+    loose = {}
+
+    def add(key, value):
+        model.setdefault(key, []).append(value)
+
+    def walk(n, path):
+        k = n[0]
+        if k in ("opt", "set", "kw1"):
+            p = ".".join(path)
+            if p in LIST_PATHS:
+                add(p, (n[1], _L.decode(_inner(n[2]))))
+            else:
+                add(".".join(path + [n[1]]), _inner(n[2]))
+        elif k == "kw2":
+            p = ".".join(path)
+            if p in LIST_PATHS:
+                add(p, (n[1], _L.decode(_inner(n[2])), _L.decode(_inner(n[3]))))
+            else:
+                add(".".join(path + [n[1]]), (_inner(n[2]), _inner(n[3])))
+        elif k == "kw0":
+            add(".".join(path), n[1])
+        elif k == "block":
+            sub = path + [n[1]]
+            if n[2] is not None and n[2] != '"default"':
+                sub = sub + [n[2]]
+            for c in n[3]:
+                walk(c, sub)
+        elif k == "transform":
+            p = ".".join(path + [n[1]])
+            stmts = [s for dt in n[2] for s in dt]
+            if p in LIST_PATHS:
+                for s in stmts:
+                    if s[0] == "kw0":
+                        add(p, s[1])
+                    else:
+                        add(p, (s[1], _L.decode(_inner(s[2]))))
+            else:
+                loose[p] = loose.get(p, 0) + len(stmts)
+
+    for n in nodes:
+        walk(n, [])
+    return model, loose
+
+
+# keyword -> grammar alias (tree node name) for the builder API
+ALIAS_EXCEPTIONS = {
+    ("https-certificate", "C"): "country", ("https-certificate", "CN"): "common_name", ("https-certificate", "L"): "locality",
+    ("https-certificate", "OU"): "org_unit", ("https-certificate", "O"): "org", ("https-certificate", "ST"): "state",
+    ("execute", "kw1", "CreateThread"): "createthread_special", ("execute", "kw1", "CreateRemoteThread"): "createremotethread_special",
+}  # fmt: skip
+
+
+def alias_of(spec, kind, keyword):
+    if (spec, kind, keyword) in ALIAS_EXCEPTIONS:
+        return ALIAS_EXCEPTIONS[(spec, kind, keyword)]
+    if (spec, keyword) in ALIAS_EXCEPTIONS:
+        return ALIAS_EXCEPTIONS[(spec, keyword)]
+    return keyword.lower().replace("-", "_")
